@@ -27,7 +27,7 @@ EXPLANATION = (
     "request that carries a multiplexer stores it from that request before anything that can abort; R4 exception to "
     "abort translation in on_request (specific before general, code passed unchanged, KeyError -> 0x06020000, default "
     "0x08000000); R5 the client decodes an abort as '<L' at offset 4 and raises SdoAbortedError(code) before returning; "
-    "R6 data_store has a single writer. R9 implicit array members inherit the access type of sub-index 1 (shared with C08.R11); R10 every set_data call in a handler reachable from on_request passes check_writable=True and no handler goes through the unchecked local download()/upload() helpers; R9 implicit array members inherit the access type of sub-index 1 and membership agrees with __getitem__ (shared with C08.R11); R10 every set_data call in a handler reachable from on_request passes check_writable=True and no handler goes through the unchecked local download()/upload() helpers; R11 ODVariable.__len__ per data type (the download length check uses it; shared with C04.R5); R8 structural assumptions shared by all properties: no class-level mutable object is mutated in place by instances, no method re-runs the constructor, logging statements cannot raise (typed eager formatting, divisions), no mutable default argument is kept or mutated, no new truth-value test of a None-able number."
+    "R6 data_store has a single writer. R9 implicit array members inherit the access type of sub-index 1 (shared with C08.R11); R10 every set_data call in a handler reachable from on_request passes check_writable=True and no handler goes through the unchecked local download()/upload() helpers; R9 implicit array members inherit the access type of sub-index 1 and membership agrees with __getitem__ (shared with C08.R11); R10 every set_data call in a handler reachable from on_request passes check_writable=True and no handler goes through the unchecked local download()/upload() helpers; R11 ODVariable.__len__ per data type (the download length check uses it; shared with C04.R5); R8 structural assumptions shared by all properties: no class-level mutable object is mutated in place by instances, no method re-runs the constructor, logging statements cannot raise (typed eager formatting, divisions), no mutable default argument is kept or mutated, no new truth-value test of a None-able number, a look-up memory the pinned tree does not have is keyed by all its inputs (arithmetic keys folded over a grid of addresses) and, on the serving side, emptied somewhere."
     ' R5 also: SdoAbortedError accepts every 32-bit code (constructor specialised for boundary codes).'
     ' R2 also: every segmented transfer starts from a fresh buffer and toggle (shared server clause).'
 )
